@@ -29,7 +29,8 @@ ASSUMPTIONS = [
     "holds only on the inputs driven; nothing is claimed for inputs not generated",
 ]
 REQUIRED = {"all": ["len_lt5", "len_eq5", "len_eq6", "net_negative", "net_zero", "net_positive", "uncharged",
-                    "random_long", "longer_than_1000", "shuffled_objects", "salted_objects", "kappa_before_delta", "all_compositions_of_lengths_12_and_up", "handles_pointed_at_another_backend_object"]}
+                    "random_long", "longer_than_1000", "shuffled_objects", "salted_objects", "kappa_before_delta", "all_compositions_of_lengths_12_and_up", "handles_pointed_at_another_backend_object",
+                    "pair_swap_children_of_queried_parents", "reduced_alphabet_objects"]}
 LMAX = {"quick": 11, "thorough": 13}
 NRANDOM = {"quick": 1500, "thorough": 20000}
 NLONG = {"quick": 6, "thorough": 40}
@@ -137,6 +138,40 @@ def judge(case, rep, S):
                  sig={"L": L, "p": p, "n": n})
     if L < 5 and got != 0:
         rep.viol("short_sequence_nonzero", "length %d < 5 must give 0, got %r for %s" % (L, got, seq))
+    if case["k"] == "seq" and 6 <= L <= 150 and rep.evaluations % 5 == 0:
+        # a pair swap of the parent that has already answered (positions near either end, in either order): the child is an
+        # object of ITS sequence
+        rs = gen.sub_rng(0, "swapchild", seq)
+        par = S["SP"](seq)
+        par.get_delta()
+        if rs.random() < 0.5:
+            par.get_kappa()
+        for _ in range(3):
+            i_ = rs.choice([0, 1, 2, 3, 4, L - 1, L - 2, rs.randrange(L)])
+            j_ = rs.randrange(L)
+            ch = par.SeqObj.swapRes(i_, j_)
+            cgot = S["SP"](SeqObj=ch).get_delta()
+            cwant = M.delta_exact(M.pattern(ch.seq))
+            rep.cnt("pair_swap_children_of_queried_parents")
+            if sorted(ch.seq) != sorted(seq) or not M.close(float(cgot), float(cwant)):
+                rep.viol("delta_value_shuffled_object", "swapRes(%d,%d) of %s (which had answered get_delta) gives %s with get_delta %r; the definition gives %r" % (
+                    i_, j_, seq, ch.seq, cgot, float(cwant)), sig={"swap_child": True})
+                break
+    if case["k"] == "pat" and 6 <= L <= 11 and rep.evaluations % 40 == 0:
+        # the same pattern written in the reduced charge alphabet the backend supports (+, -, 0), and a shuffled copy of it
+        red = "".join("+" if q > 0 else ("-" if q < 0 else "0") for q in pat)
+        ro = S["SP"](SeqObj=S["Sequence"](red))
+        rgot_ = ro.get_delta()
+        rep.cnt("reduced_alphabet_objects")
+        if not M.close(float(rgot_), float(want)):
+            rep.viol("delta_value_wrapped_backend_object", "Sequence(%r) behind a handle gives delta %r; the definition gives %r" % (red, rgot_, float(want)), sig={"reduced": True})
+        else:
+            rc = ro.get_shuffled_sequence()
+            cs = rc.get_sequence()
+            cpat = tuple(1 if c == "+" else (-1 if c == "-" else 0) for c in cs)
+            if sorted(cs) != sorted(red) or not M.close(float(rc.get_delta()), float(M.delta_exact(cpat))):
+                rep.viol("delta_value_shuffled_object", "shuffled copy %s of the reduced-alphabet object %s gives delta %r; the definition gives %r" % (
+                    cs, red, rc.get_delta(), float(M.delta_exact(cpat))), sig={"reduced": True})
     if case["k"] == "seq" and 5 <= L <= 150 and rep.evaluations % 7 == 0:
         # the public SeqObj attribute of an already queried handle is pointed at another backend object (the library's own
         # get_permutant() builds its result that way): the handle then answers for that object
